@@ -3,6 +3,7 @@ package btchecks
 import (
 	"encoding/json"
 	"fmt"
+	"strings"
 	"testing"
 
 	"pgregory.net/rapid"
@@ -31,6 +32,8 @@ func partialFail(key bt.BS, kind int) bt.Filter {
 	return bt.Filter{K: "cond", Pred: &bt.Filter{K: "rowkey", Rx: &bt.Rx{K: "lit", Lit: key}}, True: &bad, False: &bt.Filter{K: "pass", Flag: true}}
 }
 
+var c17HostileTables = []string{"nul\x00id", strings.Repeat("n", 201), strings.Repeat("m", 200), strings.Repeat("x", 2100), "sub/dir", "..", ".", "", "a b", "ü", "con\\x", "%2F", strings.Repeat("a/", 40) + "z"}
+
 func genC17() *rapid.Generator[C17Case] {
 	return rapid.Custom(func(t *rapid.T) C17Case {
 		ctx := bt.ProgCtx{Tables: c14Tables[:2], Fams: bt.AllFams, Keys: c14Keys, Quals: c14Quals,
@@ -42,6 +45,20 @@ func genC17() *rapid.Generator[C17Case] {
 			if rapid.IntRange(0, 24).Draw(t, "gc") == 0 {
 				// a forced garbage-collection pass (same clock on all three servers)
 				return bt.Op{K: "GC", Force: true, Clock: bt.I64(rapid.SampledFrom([]int64{5000, 10_000_000_000}).Draw(t, "gcclock"))}
+			}
+			if rapid.IntRange(0, 24).Draw(t, "hostilename") == 0 {
+				// table ids that matter to an engine that turns them into file names: all engines must agree on them
+				id := rapid.SampledFrom(c17HostileTables).Draw(t, "table")
+				switch rapid.IntRange(0, 4).Draw(t, "hk") {
+				case 0, 1:
+					return bt.Op{K: "CreateTable", Table: id, Fams: fams}
+				case 2:
+					return bt.Op{K: "MutateRow", Table: id, Key: "k", Muts: []bt.Mut{{K: "set", Fam: "f", Qual: "q", TS: 1000, Val: "v"}}}
+				case 3:
+					return bt.Op{K: "ReadRows", Table: id}
+				default:
+					return bt.Op{K: "DeleteTable", Table: id}
+				}
 			}
 			op := bt.GenOp(ctx).Draw(t, "op")
 			if op.K == "ReadRows" && rapid.IntRange(0, 2).Draw(t, "partial") == 0 {
